@@ -386,21 +386,32 @@ class ProgGen:
             return self.call_stmt(env, ind)
         if depth <= 0:
             return self.out_stmt(env, ind)
-        if k < 0.80:
+        if k < 0.78:
             self.feat("if")
             c = self.expr(self.anytype(), env, d)
             out = ["%sif (%s) {" % (pad, c)] + self.stmts(env, depth - 1, r.randint(1, 3), ind + 1, ctx)
             if r.random() < 0.5:
                 out += ["%s} else {" % pad] + self.stmts(env, depth - 1, r.randint(1, 3), ind + 1, ctx)
             return out + ["%s}" % pad]
-        if k < 0.90:
+        if k < 0.86:
             return self.loop(env, depth, ind, ctx)
-        if k < 0.96 and self.opt["switches"]:
+        if k < 0.91 and self.opt["switches"]:
             return self.switch(env, depth, ind, ctx)
         if ctx.get("inloop") and r.random() < 0.5:
             self.feat("break/continue")
             c = self.expr(self.type_named("int"), env, 1)
+            if r.random() < 0.4:
+                # unreachable code after the jump, in the same block
+                self.feat("dead-code")
+                return ["%sif (%s) { %s; %s }" % (pad, c, r.choice(["break", "continue"]), self.out_stmt(env, 0)[0])]
             return ["%sif (%s) %s;" % (pad, c, r.choice(["break", "continue"]))]
+        if "ret" in ctx and r.random() < 0.5:
+            self.feat("early-return")
+            c = self.expr(self.type_named("int"), env, 1)
+            rt = ctx["ret"]
+            val = "" if rt is None else " " + self.expr(rt, env, 1)
+            dead = self.out_stmt(env, 0)[0] if r.random() < 0.5 else ""
+            return ["%sif (%s) { return%s; %s }" % (pad, c, val, dead)]
         if self.opt["gotos"] and not ctx.get("nogoto"):
             self.feat("goto")
             lab = self.fresh("L")
@@ -623,7 +634,8 @@ class ProgGen:
         else:
             rt = self.anytype()
         rname = "void" if rt is None else ("struct %s" % rt.name if isinstance(rt, Struct) else rt.name)
-        body = self.stmts(env, int(2 * self.size), r.randint(2, int(3 + 5 * self.size)), 1, {})
+        body = self.stmts(env, int(2 * self.size), r.randint(2, int(3 + 5 * self.size)), 1,
+                          {"ret": rt} if not isinstance(rt, Struct) else {})
         if rt is None:
             ret = []
         elif isinstance(rt, Struct):
